@@ -15,6 +15,7 @@ import Mfi.Lemmas.SkelL
 import Mfi.Lemmas.AccrualL
 import Mfi.Lemmas.WorldL
 
+import Mfi.Lemmas.WorldTxL
 namespace Mfi.Props.C06
 open Mfi Mfi.Fx Mfi.Bank Mfi.Interest Mfi.Gen
 
@@ -543,6 +544,32 @@ theorem world_accrue_crank_spec {c : Ctx} {b : Bank} (h : World.accrueIx c = .ok
   simp only [checks, List.forall_mem_cons, List.not_mem_nil, false_imp_iff, implies_true, and_true] at hc'
   simp [evalChk, Ctx.env] at hc'
   exact ⟨hc', h⟩
+
+/-- **world_tx_instructions_run_at_accrued_values**: and so in every COMMITTED transaction of the world machine: each deposit,
+    borrow, withdrawal and repayment in it — wherever it sits, inside a flash-loan or receivership bracket or not — ran on a
+    reached state with its bank accrued to the current time first, every share and token computed at those values -/
+theorem world_tx_instructions_run_at_accrued_values {w w' : WState} {tx : List TOp} (h : w.runTx tx = some w') (i : Nat) :
+    (∀ ai bi signer amount upTo, tx[i]? = some (.ix (.deposit ai bi signer amount upTo)) →
+      ∃ (c : Ctx) (o : Out), World.deposit c amount upTo = .ok o ∧ WorldAtAccrued c o) ∧
+    (∀ ai bi signer amount, tx[i]? = some (.ix (.borrow ai bi signer amount)) →
+      ∃ (c : Ctx) (o : Out), World.borrow c amount = .ok o ∧ WorldAtAccrued c o) ∧
+    (∀ ai bi signer amount all vault, tx[i]? = some (.ix (.withdraw ai bi signer amount all vault)) →
+      ∃ (c : Ctx) (o : Out), World.withdraw c amount all = .ok o ∧ WorldAtAccrued c o) ∧
+    (∀ ai bi signer amount all, tx[i]? = some (.ix (.repay ai bi signer amount all)) →
+      ∃ (c : Ctx) (o : Out), World.repay c amount all = .ok o ∧ WorldAtAccrued c o) := by
+  refine ⟨?_, ?_, ?_, ?_⟩
+  · intro ai bi signer amount upTo hi
+    obtain ⟨wi, a, b, o, _, _, ho⟩ := tx_deposit_ran h hi
+    exact ⟨_, o, ho, (world_instructions_run_at_accrued_values _).1 amount upTo o ho⟩
+  · intro ai bi signer amount hi
+    obtain ⟨wi, a, b, o, _, _, ho⟩ := tx_borrow_ran h hi
+    exact ⟨_, o, ho, (world_instructions_run_at_accrued_values _).2.1 amount o ho⟩
+  · intro ai bi signer amount all vault hi
+    obtain ⟨wi, a, b, o, _, _, ho⟩ := tx_withdraw_ran h hi
+    exact ⟨_, o, ho, (world_instructions_run_at_accrued_values _).2.2.1 amount all o ho⟩
+  · intro ai bi signer amount all hi
+    obtain ⟨wi, a, b, o, _, _, ho⟩ := tx_repay_ran h hi
+    exact ⟨_, o, ho, (world_instructions_run_at_accrued_values _).2.2.2.1 amount all o ho⟩
 
 /-- **world_accrue_crank_twice_is_a_no_op**: the permissionless crank run again at the same time on the books it left — by anybody,
     any number of times — leaves them exactly as they are (accruing twice at the same time is a no-op, as a whole instruction) -/
